@@ -169,6 +169,40 @@ def main():
         t = tvs[len(tvs) // 2]
         run.sample({"op": key[0], "on": key[1], "args": t.get("a") or [t.get("x"), t.get("y"), t.get("z")]}, limit=8)
     dispatch(run, cache, by)
+    # clause "Ad_exp(x) = expm(ad_x)": exp(s*xi) for screw-form xi is an exact rational element E
+    # (spec/ExpLog.tla, one-parameter subgroup proven by TLC); the code's exp(s*xi).Ad() must equal
+    # the conjugation matrix AdClosed(E)  (= expm(ad) by uniqueness of one-parameter groups)
+    from harness import explog as EL
+    res2 = run_tlc("ExpLog.tla", f"ExpLog_{tier}.cfg", workdir=run.workdir, dump=True)
+    run.add_tlc("ExpLog", res2)
+    nad = 0
+    cmp = EL.Cmp(run)
+    for st in parse_dump(res2["dump"]):
+        tv = st["tv"]
+        if tv["op"] not in ("exp_se3_screw", "exp_se23_screw"):
+            continue
+        kind = "se3" if tv["op"] == "exp_se3_screw" else "se23"
+        f, names = EL.f_exp(cache, kind, tv["rep"])
+        x = EL.xvec(tv["h"])
+        if kind == "se3":
+            a = tv["s"] * np.concatenate([EL.screw_rho(tv["h"], tv["alpha"], tv["y"]), x])
+        else:
+            a = tv["s"] * np.concatenate([EL.screw_rho(tv["h"], tv["a1"], tv["y1"]), EL.screw_rho(tv["h"], tv["a2"], tv["y2"]), x])
+        if "Ad" not in names:
+            run.violation(f"{kind.upper()}{tv['rep']}/AdExp/raises", "exp(x).Ad() could not be built", {"tv": tv}); continue
+        out = np.array(f(a)[names.index("Ad")])
+        cmp.vec(f"{kind.upper()}{tv['rep']}/AdExp/value", "Ad_exp(x) differs from the conjugation matrix of the exact exp(x)", out, rm_to_np(tv["Ad"]), tv)
+        # and expm(ad_x) computed from the code's own ad_x (scipy) must agree as well
+        nad += 1
+        if nad % 7 == 0:
+            import scipy.linalg
+            alg = algebra(kind)
+            adx = np.array(ca.DM(alg.elem(ca.DM(a)).ad()))
+            cmp.vec(f"{kind.upper()}{tv['rep']}/AdExp/expm_ad", "expm(ad_x) differs from Ad of the exact exp(x)", scipy.linalg.expm(adx), rm_to_np(tv["Ad"]), tv)
+    run.count("AdExp_vectors", nad)
+    n += nad
+    if nad == 0:
+        raise MachineryError("vacuous coverage: no AdExp vectors")
     need = {("Ad", g) for g in ["SO2", "SE2", "R2", "R3", "SO3quat", "SO3mrp", "SO3dcm", "SO3euler", "SE3quat", "SE3mrp", "SE23quat", "SE23mrp"]}
     need |= {("ad", k) for k in ["so2", "se2", "r2", "r3", "so3", "se3", "se23"]}
     if not need <= set(by):
@@ -176,7 +210,7 @@ def main():
     run.assumptions += [
         "group elements rational (integer quaternions / Pythagorean angles / rational translations), algebra elements integer vectors; Ad/ad are linear in y so matrix equality covers every y",
         "Ad and bracket on direct products raise NotImplementedError and are out of scope (counted as skipped)",
-        "the clause Ad_exp(x) = expm(ad_x) is decided in C02's ExpLog-based vectors (op AdExp), see DESIGN.md",
+        "the clause Ad_exp(x) = expm(ad_x) is decided on screw-form elements of spec/ExpLog.tla whose exponential is an exact rational element (one-parameter subgroup law proven by TLC)",
     ]
     return run.finish({
         "traces_validated_against_impl": n, "evaluations": run.counts.get("evaluations", 0),
